@@ -35,6 +35,17 @@ const char* outc_name(int o) { return o == VAL ? "value" : o == ERR ? "error" : 
 constexpr int MAXN = 3;
 constexpr size_t STORAGE = 4096;
 
+// the World of the running scenario (the token/receiver keep no pointer of their own in the operation
+// state, so that monitors stay meaningful after the operation state has been destroyed and poisoned)
+struct World;
+World* g_w = nullptr;
+
+// Park the calling thread for good after a fatal monitor failure (continuing would execute library code
+// on destroyed memory): a spin on a location nobody writes is detected by the scheduler, the execution
+// ends as "deadlock" with the monitor message attached.
+std::atomic<int> g_never{0};
+[[noreturn]] void halt_thread() { for (;;) { while (g_never.load() == 0) {} } }
+
 struct LeafBase {
   virtual void complete(int outc) noexcept = 0;
   virtual bool token_stop_requested() const noexcept = 0;
@@ -81,7 +92,7 @@ struct World {
   // ---- called by the root receiver
   void root_complete(int kind, int err) {
     int me = rt::self();
-    if (++root_signals > 1) { rt::fail("root receiver signalled %d times", root_signals); return; }
+    if (++root_signals > 1) { rt::fail("root receiver signalled %d times", root_signals); halt_thread(); }
     root_kind = kind; root_err = err;
     for (int i = 0; i < n; ++i)
       if (!completing[i]) rt::fail("root receiver signalled before child %d completed", i);
@@ -115,9 +126,8 @@ struct World {
 template <typename F> struct CountingCallback;
 
 struct CountingToken {
-  World* w;
   template <typename F> using callback_type = CountingCallback<F>;
-  bool stop_requested() const noexcept { return w->root_src.stop_requested(); }
+  bool stop_requested() const noexcept { return g_w->root_src.stop_requested(); }
   bool stop_possible() const noexcept { return true; }
 };
 
@@ -126,29 +136,35 @@ struct CountingCallback {
   struct Thunk {
     CountingCallback* self;
     void operator()() noexcept {
-      World* w = self->w;
-      if (w->op_destroyed) rt::fail("composite's stop callback invoked after the operation state was destroyed");
+      World* w = g_w;
+      if (w->op_destroyed) {
+        rt::fail("composite's stop callback invoked after the operation state was destroyed");
+        halt_thread();
+      }
       ++w->root_cb_runs;
       w->root_cb_running_on = rt::self();
       self->f();                       // may destroy *self (deliver_result from inside the callback)
       w->root_cb_running_on = -1;
     }
   };
-  struct Count { World* w; explicit Count(World* w_) : w(w_) { ++w->root_regs; } };
-  World* w;
+  using Inner = unifex::inplace_stop_callback<Thunk>;
   F f;
-  Count count;
-  std::optional<unifex::inplace_stop_callback<Thunk>> inner;
+  alignas(Inner) unsigned char inner[sizeof(Inner)];
 
   template <typename F2>
-  CountingCallback(CountingToken t, F2&& f2) : w(t.w), f((F2&&)f2), count(t.w) {
-    inner.emplace(t.w->root_src.get_token(), Thunk{this});
+  CountingCallback(CountingToken, F2&& f2) : f((F2&&)f2) {
+    ++g_w->root_regs;
+    ::new (static_cast<void*>(inner)) Inner(g_w->root_src.get_token(), Thunk{this});
   }
   CountingCallback(const CountingCallback&) = delete;
   ~CountingCallback() {
-    World* ww = w;
-    inner.reset();     // the real deregistration (may wait for a concurrently running callback)
-    --ww->root_regs;
+    World* w = g_w;
+    if (w->op_destroyed) {
+      rt::fail("composite destructs its stop callback after the operation state was destroyed (receiver already signalled)");
+      halt_thread();
+    }
+    reinterpret_cast<Inner*>(inner)->~Inner();   // the real deregistration (may wait for a running callback)
+    --w->root_regs;
   }
 };
 
@@ -160,7 +176,7 @@ struct RootReceiver {
 
   template <typename... Vs>
   void set_value(Vs&&... vs) && noexcept {
-    World* ww = w;
+    World* ww = g_w;
     std::vector<int> got;
     (collect(got, vs), ...);
     ww->root_values = got;
@@ -168,14 +184,14 @@ struct RootReceiver {
   }
   template <typename E>
   void set_error(E&& e) && noexcept {
-    World* ww = w;
+    World* ww = g_w;
     int code = -1;
     if constexpr (std::is_same_v<std::decay_t<E>, int>) code = e;
     ww->root_complete(ERR, code);
   }
-  void set_done() && noexcept { World* ww = w; ww->root_complete(DONE, -1); }
+  void set_done() && noexcept { World* ww = g_w; ww->root_complete(DONE, -1); }
 
-  friend CountingToken tag_invoke(unifex::tag_t<unifex::get_stop_token>, const RootReceiver& r) noexcept { return CountingToken{r.w}; }
+  friend CountingToken tag_invoke(unifex::tag_t<unifex::get_stop_token>, const RootReceiver&) noexcept { return CountingToken{}; }
 
 private:
   static void collect(std::vector<int>& out, int v) { out.push_back(v); }
@@ -278,6 +294,7 @@ void stopper(World& w) {
 // connect in poisoned storage, start on T0, then run the completers and the stop thread
 template <typename Sender>
 void run(World& w, Sender&& snd) {
+  g_w = &w;
   using Op = unifex::connect_result_t<Sender, RootReceiver>;
   static_assert(sizeof(Op) <= STORAGE, "enlarge STORAGE");
   Op* op = ::new (static_cast<void*>(w.storage)) Op(unifex::connect((Sender&&)snd, RootReceiver{&w}));
